@@ -80,7 +80,7 @@ def run(ctx):
                         'TLC bounds: leaf counts <= %d; pairwise binding over %s' % (
                             160 if q else 1100,
                             'all lists of <= 6 leaves over 3 ids' if q else
-                            'all lists of <= 7 leaves over 3 ids, <= 6 over 4 ids, and tails of <= 6 over the last ids of 5/6/11/12 distinct leaves'),
+                            'all lists of <= 7 leaves over 3 ids, <= 5 over 4 ids, and tails of <= 5 over the last ids of 5/6/11/12 distinct leaves'),
                         'tagged transaction lists: all lists of <= %d transactions over 5 ids in 3 chains, and 7 sorted lists with child chains of up to 200' % (5 if q else 6),
                         'worker count reaches the code through hook H1 (build tag verif)']
     st = ctx.stage()
@@ -102,8 +102,8 @@ def run(ctx):
 
     # 2. binding: every pair of lists of each domain; exports collisions, expansions and near misses
     pairs = []
-    doms = [(0, 3, 6, True)] if q else [(0, 3, 7, False), (0, 3, 6, True), (0, 4, 6, False), (5, 3, 4, True), (6, 3, 3, True),
-                                        (11, 3, 6, False), (11, 2, 5, True), (12, 2, 5, True)]
+    doms = [(0, 3, 6, True)] if q else [(0, 3, 7, False), (0, 3, 6, True), (0, 4, 5, False), (5, 3, 4, True), (6, 3, 3, True),
+                                        (11, 3, 5, False), (11, 2, 5, True), (12, 2, 5, True)]
     for (base, alpha, ml, exp) in doms:
         ctx.write_cfg(st, 'bind.cfg', cfg_bind(base, alpha, ml, exp))
         ps = behaviours(ctx.tlc_mc('Merkle_Bind', 'bind.cfg', workers=W, timeout=TO, stage=st), 'p%d-%d-' % (base, alpha))
